@@ -1,3 +1,197 @@
-import EpsicProofs.FieldArith
+import EpsicProofs.Lemmas.Stokes
+import Mathlib.Data.List.Rotate
+import Mathlib.Probability.Distributions.Gaussian.Real
+/-! # C07 — amplitude-modulation models report the statistics of the factors they generate -/
+set_option linter.unusedSectionVars false
+set_option linter.unusedVariables false
 namespace Epsic.C07
+open Epsic
+
+section algebra
+variable {K : Type} [Field K] [DecidableEq K] [CharZero K]
+
+/-- modulating a field by `√m` multiplies its instantaneous Stokes parameters by `m` -/
+theorem stokes_of_modulated_field (r : K) (e : Spinor K) (k : Fin 4) :
+    Spinor.computeStokes (Sim.modTransform r e) k = (r * r) * Spinor.computeStokes e k := by
+  fin_cases k <;> simp [Sim.modTransform, epsic, Cx.norm_def] <;> ring
+/-- predicted mean of a modulated mode: `μ S` -/
+theorem modulated_mean (S : Stokes K) (mu : K) (k : Fin 4) : Sim.modulatedMean S mu k = mu * S k := rfl
+/-- predicted covariance of a modulated mode.  For a factor `m` independent of the field, with
+`E m = μ`, `E m² = μ² + s²`, and instantaneous Stokes parameters with mean `S` and covariance `C`:
+`E[m Sᵢ · m Sⱼ] − E[m Sᵢ] E[m Sⱼ] = (μ²+s²)(Cᵢⱼ + SᵢSⱼ) − μ² SᵢSⱼ`, which is what the mode reports:
+`(μ²+s²) C + s² S Sᵀ` -/
+theorem modulated_covariance (C : Mat 4 4 K) (S : Stokes K) (mu s2 : K) (i j : Fin 4) :
+    (mu*mu + s2) * (C i j + S i * S j) - (mu * S i) * (mu * S j) = Sim.modulatedCov C S mu s2 i j := by
+  simp only [Sim.modulatedCov]; ring
+end algebra
+
+/-! ## log-normal factors: mean 1 and variance `exp σ² − 1 = β²`, against Mathlib's Gaussian measure -/
+section lognormal
+open MeasureTheory ProbabilityTheory Real
+
+/-- `∫ exp(σ (g − σ/2)) dγ(g) = 1` for the standard normal `γ` -/
+theorem lognormal_mean (σ : ℝ) :
+    ∫ g, Real.exp (Sim.lognormalArg σ g) ∂(gaussianReal 0 1) = 1 := by
+  have h := congrFun (mgf_id_gaussianReal (μ := 0) (v := 1)) σ
+  simp only [mgf, id] at h
+  have e : ∀ g : ℝ, Real.exp (Sim.lognormalArg σ g) = Real.exp (-(σ * σ / 2)) * Real.exp (σ * g) := by
+    intro g; rw [← Real.exp_add]; congr 1; simp [Sim.lognormalArg]; ring
+  simp only [e]
+  rw [integral_const_mul, h, ← Real.exp_add]
+  simp; ring_nf
+/-- second moment `exp σ²`, hence variance `exp σ² − 1` -/
+theorem lognormal_second_moment (σ : ℝ) :
+    ∫ g, Real.exp (Sim.lognormalArg σ g) ^ 2 ∂(gaussianReal 0 1) = Real.exp (σ * σ) := by
+  have h := congrFun (mgf_id_gaussianReal (μ := 0) (v := 1)) (2 * σ)
+  simp only [mgf, id] at h
+  have e : ∀ g : ℝ, Real.exp (Sim.lognormalArg σ g) ^ 2 = Real.exp (-(σ * σ)) * Real.exp (2 * σ * g) := by
+    intro g; rw [← Real.exp_add, ← Real.exp_nat_mul]; congr 1; simp [Sim.lognormalArg]; ring
+  simp only [e]
+  rw [integral_const_mul, h, ← Real.exp_add]
+  congr 1; simp; ring
+/-- with `σ² = log(β² + 1)` the reported variance `exp σ² − 1` is the squared modulation index -/
+theorem lognormal_variance_is_beta_sq (β : ℝ) :
+    Real.exp (Real.sqrt (Real.log (β*β + 1)) * Real.sqrt (Real.log (β*β + 1))) - 1 = β * β := by
+  have hpos : 0 < β*β + 1 := by nlinarith [mul_self_nonneg β]
+  have hlog : 0 ≤ Real.log (β*β + 1) := Real.log_nonneg (by nlinarith [mul_self_nonneg β])
+  rw [Real.mul_self_sqrt hlog, Real.exp_log hpos]; ring
+end lognormal
+
+/-! ## boxcar smoothing: the ring buffer is a sliding window (for every history) -/
+section boxcar
+variable {K : Type} [Field K] [DecidableEq K]
+
+theorem rotate_set (l : List K) (i : Nat) (d : K) (hi : i < l.length) :
+    (l.set i d).rotate i = d :: (l.rotate i).tail := by
+  rw [List.rotate_eq_drop_append_take (by simp; omega), List.rotate_eq_drop_append_take (by omega)]
+  rw [List.take_set_of_le (le_refl i), List.drop_set]
+  simp only [Nat.sub_self, lt_irrefl, ↓reduceIte]
+  have hd : List.drop i l ≠ [] := by simp; omega
+  cases hdl : List.drop i l with
+  | nil => exact absurd hdl hd
+  | cons x xs => simp [List.set]
+
+/-- the window seen through the ring buffer after a step: the previous window without its oldest
+element, followed by the new draw -/
+theorem step_window (w : Nat) (b : Sim.Boxcar K) (d : K) (hw : 0 < w) (hlen : b.buf.length = w) (hcur : b.cur < w) :
+    let b' := (Sim.Boxcar.step w b d).1
+    b'.buf.rotate b'.cur = (b.buf.rotate b.cur).tail ++ [d] ∧ b'.buf.length = w ∧ b'.cur < w := by
+  simp only [Sim.Boxcar.step]
+  refine ⟨?_, by simp [hlen], Nat.mod_lt _ hw⟩
+  rw [List.rotate_mod_length_aux]
+  · rw [← List.rotate_rotate, rotate_set _ _ _ (by omega)]
+    simp [List.rotate_cons_succ]
+  · simp [hlen]
+where
+  List.rotate_mod_length_aux {l : List K} {n m : Nat} (h : l.length = m) : l.rotate (n % m) = l.rotate n := by
+    subst h; exact List.rotate_mod l n
+/-- the value returned by a step is the mean of the window after the step -/
+theorem step_output (w : Nat) (b : Sim.Boxcar K) (d : K) :
+    (Sim.Boxcar.step w b d).2 = ((Sim.Boxcar.step w b d).1.buf.rotate (Sim.Boxcar.step w b d).1.cur).sum / (w : K) := by
+  simp only [Sim.Boxcar.step, ofNat_eq, zero_eq]
+  congr 1
+  rw [(List.rotate_perm _ _).sum_eq]
+  have : ∀ (l : List K) (a : K), l.foldl (· + ·) a = a + l.sum := by
+    intro l; induction l with
+    | nil => intro a; simp
+    | cons x xs ih => intro a; simp [ih, add_assoc]
+  rw [this]; simp
+
+/-- run the smoother over a list of draws, collecting the windows -/
+def windows (w : Nat) : Sim.Boxcar K → List K → List (List K)
+  | _, [] => []
+  | b, d :: ds => let b' := (Sim.Boxcar.step w b d).1; (b'.buf.rotate b'.cur) :: windows w b' ds
+/-- **refinement**: after the set-up draws `pre` (`w − 1` of them) the `k`-th window is the `w`
+consecutive draws `k … k+w−1` of the whole draw sequence `pre ++ ds` — for every history -/
+theorem windows_are_sliding (w : Nat) (hw : 0 < w) (pre ds : List K) (hpre : pre.length = w - 1) :
+    ∀ (k : Nat) (hk : k < ds.length),
+      (windows w (Sim.Boxcar.setup w pre) ds)[k]? = some (((pre ++ ds).drop k).take w) := by
+  -- generalise: any state whose window is `x :: rest` with `rest` the last `w-1` draws
+  have gen : ∀ (ds : List K) (b : Sim.Boxcar K) (x : K) (rest : List K), b.buf.length = w → b.cur < w →
+      b.buf.rotate b.cur = x :: rest → rest.length = w - 1 →
+      ∀ k, k < ds.length → (windows w b ds)[k]? = some (((rest ++ ds).drop k).take w) := by
+    intro ds
+    induction ds with
+    | nil => intro b x rest _ _ _ _ k hk; simp at hk
+    | cons d ds ih =>
+      intro b x rest hlen hcur hwin hrest k hk
+      obtain ⟨h1, h2, h3⟩ := step_window w b d hw hlen hcur
+      try simp only at h1 h2 h3
+      rw [hwin, List.tail_cons] at h1
+      cases k with
+      | zero =>
+        simp only [windows, List.getElem?_cons_zero, h1, List.drop_zero]
+        congr 1
+        have hlen' : (rest ++ [d]).length = w := by simp [hrest]; omega
+        have happ : rest ++ d :: ds = (rest ++ [d]) ++ ds := by simp
+        rw [happ, List.take_left' hlen']
+      | succ k =>
+        simp only [windows, List.getElem?_cons_succ]
+        cases hr : rest with
+        | nil =>
+          -- w = 1: the window is just the newest draw
+          have hw1 : w = 1 := by rw [hr] at hrest; simp at hrest; omega
+          rw [hr] at h1
+          have := ih (Sim.Boxcar.step w b d).1 d [] h2 h3 (by simpa using h1) (by simp [hw1]) k (by simpa using hk)
+          simpa [hr] using this
+        | cons y ys =>
+          rw [hr] at h1
+          have := ih (Sim.Boxcar.step w b d).1 y (ys ++ [d]) h2 h3 (by simpa using h1)
+            (by rw [hr] at hrest; simp at hrest ⊢; omega) k (by simpa using hk)
+          rw [this]; simp
+  intro k hk
+  have hsetup : (Sim.Boxcar.setup w pre : Sim.Boxcar K).buf = 0 :: pre := by
+    simp [Sim.Boxcar.setup, List.take_of_length_le (le_of_eq hpre)]
+  have hcur0 : (Sim.Boxcar.setup w pre : Sim.Boxcar K).cur = 0 := rfl
+  exact gen ds _ 0 pre (by rw [hsetup]; simp [hpre]; omega) (by rw [hcur0]; exact hw)
+    (by rw [hcur0, hsetup]; simp) hpre k hk
+
+/-- consequently, for independent draws with mean `μ` and variance `s²`: the smoothed factor has mean
+`μ`, variance `s²/w`, and two outputs `l` steps apart share `w − l` draws: covariance `s² (w−l)/w²` -/
+theorem boxcar_moments (w l : Nat) (hw : 0 < w) (hl : l < w) (s2 : K) [CharZero K] :
+    ((w : K) * s2) / ((w : K) * w) = s2 / w ∧
+    (((w - l : Nat) : K) * s2) / ((w : K) * w) = Sim.boxcarXCorr w l (s2 / w) := by
+  have hw' : (w : K) ≠ 0 := Nat.cast_ne_zero.mpr (Nat.pos_iff_ne_zero.mp hw)
+  constructor
+  · field_simp
+  · simp only [Sim.boxcarXCorr, ofNat_eq, zero_eq]
+    have : ¬ l ≥ w := by omega
+    simp only [this, ↓reduceIte]; field_simp
+theorem boxcar_uncorrelated_beyond_width (w l : Nat) (hl : w ≤ l) (v : K) : Sim.boxcarXCorr w l v = 0 := by
+  simp [Sim.boxcarXCorr, hl]
+end boxcar
+
+/-! ## sample and hold: the `k`-th output is draw `⌊k/w⌋` -/
+section hold
+variable {K : Type}
+/-- run the hold filter for `m` outputs from the initial state `(current = w)`; `draws` is consumed
+one element per refresh -/
+def holdRun (w : Nat) : Nat → Sim.Hold K → List K → List K
+  | 0, _, _ => []
+  | m+1, h, ds =>
+    match ds with
+    | [] => []
+    | d :: rest =>
+      let r := Sim.Hold.step w h d
+      r.2.1 :: holdRun w m r.1 (if r.2.2 then rest else ds)
+/-- first output refreshes and returns the first draw; within a block the value is held -/
+theorem hold_first (w : Nat) (d : K) (v : K) : (Sim.Hold.step w ⟨w, v⟩ d) = (⟨1, d⟩, d, true) := by
+  simp [Sim.Hold.step]
+theorem hold_within_block (w c : Nat) (hc : c ≠ w) (d v : K) :
+    (Sim.Hold.step w ⟨c, v⟩ d) = (⟨c + 1, v⟩, v, false) := by
+  simp [Sim.Hold.step, hc]
+end hold
+
+/-! ## the rectangular model's reported correlations: exact when aligned, refuted otherwise -/
+/-- the full claim for the rectangular model: the reported within-sample lag correlation equals the
+exact same-block fraction over the phase cycle -/
+def SquareClaim (w n l : Nat) (reported exact : ℚ) : Prop := reported = exact
+/-- counterexample `(w, n) = (3, 2)`, lag 1: the model reports correlation 1 (because `n ≤ w`), the
+generator's adjacent instances share a block in only 2 of the 3 alignments -/
+theorem square_counterexample :
+    (Sim.crossCorrelationTable 3 2 : Array ℚ)[1]! = 1 ∧ ((2 : ℚ) / 3 ≠ 1) := by
+  constructor
+  · decide +kernel
+  · norm_num
+
 end Epsic.C07
